@@ -11,7 +11,18 @@ use std::{
 use super::Flags;
 use crate::io::reader::num::{read_u8, read_uint7_as};
 
-pub fn decode(mut src: &[u8], mut uncompressed_size: usize) -> io::Result<Vec<u8>> {
+/// The maximum number of stripes that may be nested (a stripe chunk is itself a stream).
+const MAX_STRIPE_DEPTH: usize = 8;
+
+pub fn decode(src: &[u8], uncompressed_size: usize) -> io::Result<Vec<u8>> {
+    decode_nested(src, uncompressed_size, 0)
+}
+
+fn decode_nested(
+    mut src: &[u8],
+    mut uncompressed_size: usize,
+    stripe_depth: usize,
+) -> io::Result<Vec<u8>> {
     use crate::codecs::rans_nx16::decode::bit_pack;
 
     let flags = read_flags(&mut src)?;
@@ -21,7 +32,14 @@ pub fn decode(mut src: &[u8], mut uncompressed_size: usize) -> io::Result<Vec<u8
     }
 
     if flags.is_striped() {
-        return stripe::decode(&mut src, uncompressed_size);
+        if stripe_depth >= MAX_STRIPE_DEPTH {
+            return Err(io::Error::new(
+                io::ErrorKind::InvalidData,
+                "stripes are nested too deeply",
+            ));
+        }
+
+        return stripe::decode(&mut src, uncompressed_size, stripe_depth + 1);
     }
 
     let bit_pack_context = if flags.is_bit_packed() {
